@@ -210,6 +210,8 @@ def _candidates(scn):
             c = copy.deepcopy(scn)
             d = _get_path(c['world'], path)
             del d['steps'][si]
+            import gen
+            gen.fix_chunk_starts(d['steps'])
             yield 'drop step %d of %s' % (st['i'], path), c
     # simplify
     for i, op in enumerate(scn['ops']):
